@@ -16,18 +16,38 @@ func init() {
 	VerifHarnesses["H_C09_stream_templates"] = H_C09_stream_templates
 }
 
-// vChunkReader hands out the document in an arbitrary chunking: each Read
-// returns 1..min(len(p),remaining) bytes (an enumerated choice), the final
-// bytes either together with io.EOF or followed by a separate (0, io.EOF).
+// vChunkReader hands out the document cut at an arbitrary set of positions:
+// a Read never crosses the next cut (nor len(p)). The cut positions are an
+// ENUMERATED choice made on first use (max cuts, each at any offset), so every
+// placement of up to `max` chunk boundaries is explored; the last bytes come
+// either together with io.EOF or followed by a separate (0, io.EOF).
 type vChunkReader struct {
-	t     *verifrt.T
-	data  []byte
-	pos   int
-	reads int
-	max   int
+	t      *verifrt.T
+	data   []byte
+	pos    int
+	max    int
+	cuts   []int
+	chosen bool
+}
+
+func (r *vChunkReader) choose() {
+	r.chosen = true
+	lo := 1
+	for i := 0; i < r.max && lo < len(r.data); i++ {
+		// cut i at an offset in [lo, len-1], or no further cut
+		c := lo + r.t.Choice("cut", len(r.data)-lo+1)
+		if c >= len(r.data) {
+			break
+		}
+		r.cuts = append(r.cuts, c)
+		lo = c + 1
+	}
 }
 
 func (r *vChunkReader) Read(p []byte) (int, error) {
+	if !r.chosen {
+		r.choose()
+	}
 	rem := len(r.data) - r.pos
 	if rem == 0 {
 		return 0, io.EOF
@@ -35,15 +55,15 @@ func (r *vChunkReader) Read(p []byte) (int, error) {
 	if len(p) == 0 {
 		return 0, nil
 	}
-	m := rem
-	if len(p) < m {
-		m = len(p)
+	k := rem
+	if len(p) < k {
+		k = len(p)
 	}
-	k := m
-	if r.reads < r.max {
-		k = 1 + r.t.Choice("chunk", m)
+	for _, c := range r.cuts {
+		if c > r.pos && c-r.pos < k {
+			k = c - r.pos
+		}
 	}
-	r.reads++
 	copy(p, r.data[r.pos:r.pos+k])
 	r.pos += k
 	if r.pos == len(r.data) && r.t.Choice("eof-with-data", 2) == 1 {
